@@ -54,6 +54,30 @@ func c04Main(c *core.Ctx) {
 		wc = widthClassFor(c.R, N)
 	}
 	run := GenRun(model, c.R, N, P, B, T, wc)
+	if desc := NewModel(model).Description(); len(desc.Dimensions) > 0 && c.R.Bool(0.5) {
+		// a wider table in a column that no cell uses (see MRun.Surplus)
+		width := func(ps PSet) int {
+			w := 0
+			for pi, pd := range desc.Parameters {
+				if len(pd.Dimensions) > 0 && len(ps[pi]) > w {
+					w = len(ps[pi])
+				}
+			}
+			return w
+		}
+		most := 0
+		for _, ps := range run.Sets {
+			if w := width(ps); w > most {
+				most = w
+			}
+		}
+		for try := 0; try < 30; try++ {
+			if ps := GenPSet(model, c.R, genOpts{}); width(ps) > most {
+				run.Surplus = []PSet{ps}
+				break
+			}
+		}
+	}
 	if pad == 1 {
 		run.PadCells = c.R.IntRange(0, 2)
 		run.PadT = c.R.IntRange(0, 3)
@@ -68,6 +92,9 @@ func c04Main(c *core.Ctx) {
 		warm.Sets = run.Sets
 	}
 	c.Begin(map[string]interface{}{"model": model, "run": run, "warmup_for_hot_states": warm})
+	if len(run.Surplus) > 0 {
+		c.Tag("surplus-wider-table")
+	}
 	if hot {
 		wo, err := Execute(warm)
 		if err == nil {
